@@ -136,6 +136,13 @@ class Zsim:
         if not line.startswith(b"=ready"):
             raise RuntimeError("zsim did not start: %r" % line)
 
+    def run_no_preinit(self, plan):
+        """A worker that has not even initialised the static vocabularies:
+        for plans that build vocabularies themselves."""
+        if getattr(self, "nopre", None) is None:
+            self.nopre = Zsim(self.exe, extra_env={"ZSIM_NO_PREINIT": "1"})
+        return self.nopre.run(plan)
+
     def run_plain(self, plan):
         """The same plan on the non-sanitized build with the default stack."""
         if self.plain is None:
@@ -158,6 +165,9 @@ class Zsim:
         if self.plain is not None:
             self.plain.close()
             self.plain = None
+        if getattr(self, "nopre", None) is not None:
+            self.nopre.close()
+            self.nopre = None
         if self.proc is not None:
             try:
                 self.proc.stdin.close()
